@@ -19,7 +19,7 @@ META = {
     'note': 'The bottom process carries a listed name itself in half of the cases (self must not count). Empty kernel names are outside the generated alphabet.',
 }
 NATIVE = os.path.join(VERIF, 'native')
-NAMES = [b'a', b'a b', b'(x)', b'x)', b')(', b'fifteen_bytes_n', b'cron', b'cro', b'crond']
+NAMES = [b'a', b'a b', b'(x)', b'x)', b')(', b'fifteen_bytes_n', b'cron', b'cro', b'crond', b'l\nf', b' lead', b'trail ', b'a) S 1 \n']
 ITEMS = NAMES + [b'', b'sixteen_bytes_nam', b'n' * 40, b'a) S 1 (b']
 
 
